@@ -106,6 +106,10 @@ def _worker(args):
                         subprocess.run(["patch", "-p1", "-R", "-s", "-f", "--no-backup-if-mismatch", "-i", v["patch"]], cwd=scratch, capture_output=True)
                     else:
                         subprocess.run(["git", "apply", "-R", "--whitespace=nowarn", v["patch"]], cwd=scratch, capture_output=True, env=dict(os.environ, GIT_DIR="/nonexistent", GIT_CEILING_DIRECTORIES=scratch))
+                if v.get("expect", "*") is None:
+                    ok = rc == 0
+                    res.append((v["name"], "OK" if ok else "FAIL", "silent" if ok else "refactoring twin must be silent; rc=%d %s" % (rc, _viol(out))))
+                    continue
                 ok = rc == 1
                 res.append((v["name"], "OK" if ok else "FAIL", "fires" if ok else "seeded change no longer detected; rc=%d %s" % (rc, _viol(out))))
                 continue
@@ -282,6 +286,14 @@ def run_for(prop, jobs=None, repo=None):
     from . import mutants
     repo = repo or os.environ.get("VERIF_REPO", "/repo")
     vs = [v for v in mutants.VARIANTS + seeded_variants() if prop in ("ALL", v["prop"])]
+    # behaviour-preserving refactorings written by independent sub-agents (/verif/twins): every claimed check must stay silent on each
+    td = os.path.join(core.VERIF, "twins")
+    if os.path.isdir(td):
+        for name in sorted(os.listdir(td)):
+            pp = os.path.join(td, name, "patch.diff")
+            if os.path.exists(pp):
+                for q in (claimed_properties() if prop == "ALL" else [prop]):
+                    vs.append(dict(prop=q, name="%s on twins/%s" % (q, name), patch=pp, expect=None, file=None, old=None, new=None, where=None))
     # a check must also stay silent on the behaviour-preserving rewrites written for the *other* properties
     twins = [v for v in mutants.VARIANTS if v.get("expect") is None]
     claimed = set(claimed_properties())
